@@ -34,7 +34,7 @@ def _f6(case, details):
     """F6: compute_irmsd_fast / compute_lrmsd_fast with enforce_residue_matching=False pair the common atoms by FILE
     POSITION (each structure's own record order): a decoy whose common atoms come in a different relative order is mis-paired"""
     return details.get('fast_route') is True and details.get('enforce') is False and details.get('relative_order_differs') is True \
-        and str(details.get('why', '')).startswith('reported ')
+        and (str(details.get('why', '')).startswith('reported ') or ' changed under permuted-' in str(details.get('why', '')))
 
 @signature('lrmsd_long_chain_choice_differs')
 def _f5(case, details):
